@@ -446,7 +446,10 @@ func TestCampaignEntryPoints(t *testing.T) {
 	rapid.Check(t, func(t *rapid.T) {
 		c := genCase(t)
 		hx.InFlight("entrypoints", c)
+		// a report of the race detector ends the process at once: the case in flight is on disk and becomes the replay
+		clear := hx.InFlightOnDisk("entrypoints", c, "the race detector (or a fatal runtime error) ended the process while this case was running: the wrapper and its caller touch the same memory without synchronisation")
 		out, err := check(c)
+		clear()
 		hx.Idle()
 		record(c, out)
 		hx.KnownOrFail(t, "entrypoints", c, err, func() string { return matchKnown(c, err) })
